@@ -639,8 +639,17 @@ def r06_4_matrix_fills(ctx, rule: str = 'R06.4') -> List[Ob]:
                 base = tg.value.value if isinstance(tg.value, ast.Subscript) else tg.value
                 bname = ast.unparse(base)
                 it = loop.iter
+                bound_ = it.args[0] if isinstance(it, ast.Call) and len(it.args) == 1 else None
+                if isinstance(bound_, ast.Name):
+                    # a local that is bound once (the number of rows, named in front of the loop)
+                    defs_ = [a_ for a_ in ast.walk(f.node) if isinstance(a_, ast.Assign) and len(a_.targets) == 1
+                             and isinstance(a_.targets[0], ast.Name) and a_.targets[0].id == bound_.id]
+                    n_st_ = sum(1 for x_ in ast.walk(f.node) if isinstance(x_, ast.Name) and x_.id == bound_.id
+                                and isinstance(x_.ctx, ast.Store))
+                    if len(defs_) == 1 and n_st_ == 1 and defs_[0].lineno < loop.lineno:
+                        bound_ = defs_[0].value
                 full = isinstance(it, ast.Call) and isinstance(it.func, ast.Name) and it.func.id == 'range' and len(it.args) == 1 and \
-                    ast.unparse(it.args[0]) in (f"{bname}.shape[0]", f"len({bname})", f"{bname}.shape[1]")
+                    ast.unparse(bound_) in (f"{bname}.shape[0]", f"len({bname})", f"{bname}.shape[1]")
                 one = isinstance(loop.body[0].value, ast.Constant) and loop.body[0].value.value in (1, 1.0)
                 t = f"{f.name}: the whole diagonal of the SPIKE-Sync matrix is set to 1"
                 if full and one:
